@@ -3,9 +3,9 @@ use dashu_base::{DivEuclid, DivRem, DivRemAssign, DivRemEuclid, RemEuclid};
 use dashu_int::fast_div::ConstDivisor;
 use dashu_int::{IBig, UBig};
 use dv::gen::{self, Prof};
+use dv::nb::NbInt;
 use dv::*;
 use num_bigint::{BigInt, BigUint};
-use num_integer::Integer;
 use num_traits::{One, Signed, Zero};
 use proptest::prelude::*;
 use serde::{Deserialize, Serialize};
@@ -295,6 +295,34 @@ fn division(c: &DivCase, _ctx: &Ctx) -> Out {
         eq_ii(&mut out, "IBig div_rem UBig [val.val]", catch(|| a.clone().div_rem(ub.clone())), &mq2, &mr2);
         eq_i(&mut out, "IBig /= UBig", catch(|| { let mut x = a.clone(); x /= &ub; x }), &mq2);
         eq_i(&mut out, "IBig %= UBig", catch(|| { let mut x = a.clone(); x %= ub.clone(); x }), &mr2);
+    }
+
+    // ---------- the division forms of num_integer::Integer (cargo feature num-integer): floored
+    // division, judged by the same trait implemented for num-bigint's integers
+    {
+        use num_integer::Integer as NI;
+        let (fq, fr) = (NI::div_floor(&na, &nb), NI::mod_floor(&na, &nb));
+        if na.is_negative() != nb.is_negative() && !tr.is_zero() {
+            out.label("floor: differs from truncation");
+            if tq.is_zero() {
+                out.label("floor: truncated quotient 0, floored quotient -1");
+            }
+        }
+        eq_i(&mut out, "num_integer::Integer::div_floor (IBig)", catch(|| NI::div_floor(&a, &b)), &fq);
+        eq_i(&mut out, "num_integer::Integer::mod_floor (IBig)", catch(|| NI::mod_floor(&a, &b)), &fr);
+        eq_ii(&mut out, "num_integer::Integer::div_mod_floor (IBig)", catch(|| NI::div_mod_floor(&a, &b)), &fq, &fr);
+        eq_ii(&mut out, "num_integer::Integer::div_rem (IBig)", catch(|| NI::div_rem(&a, &b)), &tq, &tr);
+        eq_u(&mut out, "num_integer::Integer::div_floor (UBig)", catch(|| NI::div_floor(&ua, &ub)), &uq);
+        eq_u(&mut out, "num_integer::Integer::mod_floor (UBig)", catch(|| NI::mod_floor(&ua, &ub)), &ur);
+        eq_uu(&mut out, "num_integer::Integer::div_mod_floor (UBig)", catch(|| NI::div_mod_floor(&ua, &ub)), &uq, &ur);
+        eq_uu(&mut out, "num_integer::Integer::div_rem (UBig)", catch(|| NI::div_rem(&ua, &ub)), &uq, &ur);
+        match catch(|| (NI::is_multiple_of(&a, &b), NI::is_multiple_of(&ua, &ub), NI::is_even(&a), NI::is_odd(&a), NI::is_even(&ua), NI::is_odd(&ua))) {
+            Ok(g) => {
+                let want = (tr.is_zero(), ur.is_zero(), NI::is_even(&na), NI::is_odd(&na), NI::is_even(&nua), NI::is_odd(&nua));
+                out.check(g == want, || format!("num_integer::Integer is_multiple_of / is_even / is_odd: got {g:?} want {want:?}"));
+            }
+            Err(m) => out.fail(format!("num_integer::Integer predicates panicked: {}", normalise(&m))),
+        }
     }
 
     // ---------- ConstDivisor built from the same divisor
